@@ -3,7 +3,7 @@
 SEED=$1; shift
 cd /repo || exit 2
 if [ -n "$(git status --porcelain)" ]; then echo "repo not clean"; exit 2; fi
-git apply --3way /verif/${SEEDDIR:-seeded}/$SEED/patch.diff >/dev/null 2>&1 || git apply /verif/${SEEDDIR:-seeded}/$SEED/patch.diff || { echo "patch does not apply"; git checkout -- .; exit 2; }
+git apply --3way /verif/${SEEDDIR:-seeded}/$SEED/patch.diff >/dev/null 2>&1 || git apply /verif/${SEEDDIR:-seeded}/$SEED/patch.diff || { echo "patch does not apply"; git reset -q --hard HEAD; exit 2; }
 git reset -q
 cd /verif
 for id in "$@"; do
